@@ -24,6 +24,17 @@ def check(run):
         probes = [ch[v["scheme"]][p] for p in range(0, 2 * K + 1)]
         nvar += len(v["variants"])
         jobs.append({"k": "versvar", "scheme": v["scheme"], "base": v["base"], "variants": v["variants"], "probes": probes})
+    # second family of chains: build metadata, prefixes, epochs, letter case, pypi pre-releases and local labels as
+    # bounds; every probe of the chain (pre-release probes included) is asked of every spelling
+    ch2 = versgen.chains(run, chain=2)
+    versgen.check_chains(run, exe, ch2)
+    K2 = 2 if quick else 3
+    cfg2 = vlib.cfg_consts(K=K2, Schemes=set(schemes), ChainNo=2) + \
+        "INIT VInit\nNEXT VNext\nINVARIANT EmitVariants\nCHECK_DEADLOCK FALSE\n"
+    lines, st, dt = vlib.tlc(run, "MC_Vers", cfg2, name="variants2", workers=8, timeout=2400, heap="10g")
+    for v in vlib.tagged(lines, "VEC"):
+        nvar += len(v["variants"])
+        jobs.append({"k": "versvar", "scheme": v["scheme"], "base": v["base"], "variants": v["variants"], "probes": ch2[v["scheme"]]})
     if not quick:
         # beyond the exhaustive bound: 5-6 constraints, all 120/720 permutations of sampled well-formed ranges
         for _ in range(60):
